@@ -498,9 +498,9 @@ func runC07(r *ev.Run, thorough bool) int {
 	r.Add("histories", int64(len(tasks)))
 	r.Add("distinct_observation_sequences", int64(len(outs)))
 	// WebSocket clients (sequential histories over real loopback connections)
-	wsDepth := 3
+	wsDepth := 4
 	if thorough {
-		wsDepth = 5
+		wsDepth = 6
 	}
 	wst := c07wsExplore(r, wsDepth)
 	// E3: deliveries racing with fetch / unregister / register on one mailbox
